@@ -51,10 +51,10 @@ where
     {
         let mut digested = util::CrcDigestRead::new(input, &mut digest);
         let backward_size = digested.read_u32::<LittleEndian>()?;
-        if index_size as u32 != (backward_size + 1) << 2 {
+        if index_size as u64 != (backward_size as u64 + 1) << 2 {
             return Err(error::Error::XzError(format!(
                 "Invalid index size: expected {} but got {}",
-                (backward_size + 1) << 2,
+                (backward_size as u64 + 1) << 2,
                 index_size
             )));
         }
